@@ -21,6 +21,7 @@
 (*           point of order n of the twist, H(m) the hash-to-curve output  *)
 (*           the verifier computed (captured, its input bound to m;        *)
 (*           correctness of the map itself is C13)                         *)
+(*   BB / ZSS  sigma = [1/(H(m)+d)]g for pk = [d]g' (ghost logarithm)      *)
 (* Mutated triples are judged by the same definition - so ECDSA's (r, n-s) *)
 (* is expected to be ACCEPTED and everything invalid to be rejected.       *)
 (***************************************************************************)
@@ -222,6 +223,35 @@ BlsGenOk(e) ==
     /\ ValidG2(e, T2Abs(e, e.G2))                                        \* the generator has order n
     /\ T2Abs(e, e.pk) = TMulNat(BnVal(e.d), T2Abs(e, e.G2), Twist(e))    \* pk = [d]G2
 
+(* ------------------------------------------- Boneh-Boyen short signatures, ZSS *)
+(* sigma = [1 / (H(m) + d)]g with g the generator of G1 (BB; key [d]G2) resp. G2 (ZSS; key [d]G1);       *)
+(* e(sigma, [H(m)]G2 + pk) = e(G1, G2) holds iff (H(m) + d) log(sigma) = 1 mod n - decided with the ghost   *)
+(* logarithm gd of the submitted key.  H(m) = SHA-256 digest (or the given digest) as an integer mod n.   *)
+InvMsgInt(e) == BMod(BFromBE(IF e.flag = 0 THEN X!Sha256(e.msg) ELSE e.msg), BnVal(e.n))
+InvExp(e, d) == BModInv(BAddMod(InvMsgInt(e), d, BnVal(e.n)), BnVal(e.n))       \* <<>> when H(m) + d = 0
+BbsDef(e) ==
+    LET c == Crv(e)
+        S == PAbs(e, e.S)
+    IN  /\ e.mdl = 32 /\ RepOk(e, e.S) /\ T2Norm(e, e.pk)
+        /\ ~S.inf /\ OnCurve(S, c)
+        /\ HasLog(e)
+        /\ InvExp(e, BnVal(e.gd)) # <<>>
+        /\ PEq(S, PMulNat(InvExp(e, BnVal(e.gd)), PAbs(e, e.G1), c))
+ZssKeyValid(e) == RepOk(e, e.pk) /\ ~PAbs(e, e.pk).inf /\ OnCurve(PAbs(e, e.pk), Crv(e))
+ZssDef(e) ==
+    LET c == Crv(e)
+        gd == BnVal(e.gd)
+    IN  /\ e.mdl = 32 /\ T2Norm(e, e.S)
+        /\ ZssKeyValid(e)
+        /\ gd # <<>> /\ BLt(gd, BnVal(e.n)) /\ PEq(PAbs(e, e.pk), PMulNat(gd, PAbs(e, e.G1), c))
+        /\ InvExp(e, gd) # <<>>
+        /\ T2Abs(e, e.S) = TMulNat(InvExp(e, gd), T2Abs(e, e.G2), Twist(e))
+ZssClaimOk(e) == BnVal(e.gd) # <<>> \/ ~ZssKeyValid(e)
+ZssGenOk(e) ==
+    /\ Clean(e) /\ e.ret = 0
+    /\ ~BnNeg(e.d) /\ BnVal(e.d) # <<>> /\ BLt(BnVal(e.d), BnVal(e.n))
+    /\ RepOk(e, e.pk) /\ PEq(PAbs(e, e.pk), PMulNat(BnVal(e.d), PAbs(e, e.G1), Crv(e)))
+
 (* ----------------------------------------------------------------- accept *)
 SigAccept(e) ==
     CASE e.op = "ecdsa_ver" -> Verdict(e, EcdsaDef(e))
@@ -229,12 +259,16 @@ SigAccept(e) ==
       [] e.op \in {"ecdsa_gen", "ecss_gen"} -> EcGenOk(e)
       [] e.op = "ecdsa_sig" -> EcSigOk(e, FALSE)
       [] e.op = "ecss_sig"  -> EcSigOk(e, TRUE)
-      [] e.op = "rsa_ver"   -> Verdict(e, RsaDef(e))
+      [] e.op = "rsa_ver"   -> e.crash = 0 /\ Verdict(e, RsaDef(e))
       [] e.op = "rsa_gen"   -> RsaGenOk(e)
       [] e.op = "rsa_sig"   -> Clean(e) /\ e.ret = 0 /\ e.slen = e.k
       [] e.op = "bls_ver"   -> BlsClaimOk(e) /\ Verdict(e, BlsDef(e))
       [] e.op = "bls_gen"   -> BlsGenOk(e)
-      [] e.op = "bls_sig"   -> Clean(e) /\ e.ret = 0
+      [] e.op \in {"bls_sig", "bbs_sig", "zss_sig"} -> Clean(e) /\ e.ret = 0
+      [] e.op = "bbs_ver"   -> BlsClaimOk(e) /\ Verdict(e, BbsDef(e))
+      [] e.op = "bbs_gen"   -> BlsGenOk(e)
+      [] e.op = "zss_ver"   -> ZssClaimOk(e) /\ Verdict(e, ZssDef(e))
+      [] e.op = "zss_gen"   -> ZssGenOk(e)
       [] e.op = "skip"      -> TRUE
       [] OTHER -> FALSE
 
@@ -262,7 +296,14 @@ SigKnownKey(e) ==
                 m == BModExp(s, BnVal(e.E), N)
                 em == BToBE(m, BLenBytes(m))                       \* minimal big-endian form of s^e mod N
                 h == RsaDigest(e)
-            IN  IF ~(Clean(e) /\ wellformed) THEN ""
+                \* basic padding: h1 = alloca(max(msg_len, RLC_MD_LEN) + 8) receives the whole payload behind the FF marker
+                overflow == e.pad = "basic" /\ Len(em) >= 1 /\ em[1] = 255
+                            /\ Len(em) - 1 > (IF Len(e.msg) > HLen THEN Len(e.msg) ELSE HLen) + 8
+            IN  IF ~wellformed THEN ""
+                ELSE IF Len(e.sig) = BLenBytes(N) /\ BLt(s, N) /\ overflow
+                     THEN \* undefined behaviour: abnormal end or a verdict that differs from the definition
+                          (IF e.crash # 0 \/ ~Verdict(e, RsaDef(e)) THEN "C05-rsa-basic-payload-overflows-stack-buffer" ELSE "")
+                ELSE IF ~(Clean(e) /\ e.crash = 0) THEN ""
                 ELSE IF e.ret = 0
                      THEN \* honest PSS signatures under a modulus of 8j + 1 bits are refused
                           (IF e.pad = "pss" /\ (BBits(N) - 1) % 8 = 0 /\ RsaDef(e)
@@ -281,5 +322,16 @@ SigKnownKey(e) ==
                            \/ (Len(P) < Len(h) /\ P \o Zeros(Len(h) - Len(P)) = h)     \* short payload, zero-extended
                      THEN "C05-rsa-basic-payload-length-not-checked"
                 ELSE ""
+      [] e.op = "bbs_ver" ->
+            \* identity public key: e(sigma, [H(m)]G2 + O) = e(G1, G2) for sigma = [1 / H(m)]G1
+            IF /\ Clean(e) /\ e.ret = 1 /\ e.mdl = 32 /\ RepOk(e, e.S) /\ T2Norm(e, e.pk) /\ T2Abs(e, e.pk).inf
+               /\ InvExp(e, <<>>) # <<>>
+               /\ PEq(PAbs(e, e.S), PMulNat(InvExp(e, <<>>), PAbs(e, e.G1), Crv(e)))
+            THEN "C05-bbs-identity-pubkey" ELSE ""
+      [] e.op = "zss_ver" ->
+            IF /\ Clean(e) /\ e.ret = 1 /\ e.mdl = 32 /\ RepOk(e, e.pk) /\ T2Norm(e, e.S) /\ PAbs(e, e.pk).inf
+               /\ InvExp(e, <<>>) # <<>>
+               /\ T2Abs(e, e.S) = TMulNat(InvExp(e, <<>>), T2Abs(e, e.G2), Twist(e))
+            THEN "C05-zss-identity-pubkey" ELSE ""
       [] OTHER -> ""
 =============================================================================
